@@ -53,6 +53,7 @@ extern const hx_op ops_c13[];
 extern const hx_op ops_c08[];
 extern const hx_op ops_c19[];
 extern const hx_op ops_c11[];
+extern const hx_op ops_c12[];
 void hx_dispatch(char *line, FILE *o);
 int hx_aead(const char *op, int argc, char **argv, FILE *o);  /* 1 = not an aead op */
 #endif
